@@ -395,14 +395,47 @@ func (r *Run) opHeadBucket(op *Op) {
 }
 
 func (r *Run) opRmBucket(op *Op) {
-	resp := r.simple("DELETE", target(op.B, "", nil), op)
+	force := op.Status == "force"
+	var resp *Resp
+	if force {
+		// Minio-style forced deletion: the bucket goes together with its objects
+		resp = r.send(&simnet.Request{Method: "DELETE", Target: target(op.B, "", nil), Headers: [][2]string{{"x-minio-force-delete", "true"}}}, op.Faults, r.frag(op))
+	} else {
+		resp = r.simple("DELETE", target(op.B, "", nil), op)
+	}
 	r.noPanic(resp, "delete bucket")
-	if r.faultedOut(resp, op.B) || r.Plan.Config.Backend == "singlefs" {
+	if r.faultedOut(resp, op.B) {
+		return
+	}
+	if r.Plan.Config.Backend == "singlefs" {
+		// the one bucket of this backend cannot be deleted; a forced deletion
+		// empties it and it stays usable
+		if b := r.bucket(op.B); force && b != nil {
+			if !resp.OK() {
+				r.fail("bucket.semantics", "a forced deletion of the single bucket is answered with an error "+r.bctx(), "204", resp.String())
+			}
+			for k := range b.Keys {
+				delete(b.Keys, k)
+			}
+			r.stats.Mutations++
+			r.ok("bucket.semantics")
+			r.probe("forced bucket deletion")
+		}
 		return
 	}
 	b := r.bucket(op.B)
 	if b == nil {
 		r.expectNoBucket(resp, "DELETE bucket")
+		return
+	}
+	if force {
+		if !resp.OK() {
+			r.fail("bucket.semantics", "a forced deletion of an existing bucket is answered with an error "+r.bctx(), "204", resp.String())
+		}
+		delete(r.M.Buckets, op.B)
+		r.stats.Mutations++
+		r.ok("bucket.semantics")
+		r.probe("forced bucket deletion")
 		return
 	}
 	if (b.Dirty || len(r.indetKeys(b)) > 0) && (resp.Status == 204 || resp.Status == 409) {
